@@ -70,6 +70,8 @@ class Loader:
         if info:
             interp.ctype_aliases = dict(getattr(interp, "ctype_aliases", {}))
             interp.ctype_aliases.update(mod.ctype_aliases)
+            mod.ns["cython"] = self.import_module(interp, "cython")
+            mod.ns.setdefault("np", self.import_module(interp, "numpy"))
         skipped = []
         for st in tree.body:
             try:
@@ -83,7 +85,7 @@ class Loader:
                             if isinstance(n, ast.Name) and isinstance(n.ctx, ast.Store):
                                 env.vars[n.id] = Opaque("module-level " + n.id)
                         skipped.append((st.lineno, str(e)))
-                elif isinstance(st, ast.Expr):
+                elif isinstance(st, (ast.Expr, ast.Pass)):
                     pass
                 elif isinstance(st, (ast.If, ast.Try)):
                     try:
